@@ -237,6 +237,10 @@ func onRuleUpdate(rawResRulesMap map[string][]*Rule) (err error) {
 	tcMux.Lock()
 	tcMap = m
 	rebuildRefTcMapLocked()
+	// (what the load changes in the rule-in-force table takes effect in the same critical section: committed
+	// after it - behind the unlock and the log line - a getter in between reported the new list with the IDs
+	// of the old one, a list nobody ever loaded)
+	endRuleInForceEdits(true)
 	tcMux.Unlock()
 	currentRules = rawResRulesMap
 	published = true
@@ -311,6 +315,7 @@ func onResourceRuleUpdate(res string, rawResRules []*Rule) (err error) {
 		tcMap[res] = newResTcs
 	}
 	rebuildRefTcMapLocked()
+	endRuleInForceEdits(true)
 	tcMux.Unlock()
 	published = true
 	// keep a copy of the list: the caller may go on using its slice (replace an element and load it
